@@ -77,6 +77,8 @@
 
 ; ---- bridge metadata (A-JSON: decoding is a pure function of the bytes) -------------------------------
 (declare-fun permHas (Bytes) Bool)      ; metadata parses as the documented structure and has the perm_channels key
+(declare-fun jsonObj (Bytes) (Array Bytes (Opt Iface)))   ; json.Unmarshal into map[string]interface{} (A-JSON)
+(declare-fun jsonObjOK (Bytes) Bool)
 
 ; ---- transactions (assumed pure accessors) -----------------------------------------------------------
 (declare-fun txMsgs (Iface) (GSeq Iface))
